@@ -97,6 +97,15 @@ def check_case(case):
     spec = with_phases(base, phases, dict(zip(names, case["assign"])))
     if case.get("pc_first"):
         spec["pc_first"] = True
+    if case.get("bounce"):
+        spec["bounce"] = case["bounce"]
+    if case.get("reconf"):   # every configured component was configured before, differently; the later call replaces the earlier one
+        for c in spec["comps"]:
+            if c.get("pc") is not None:
+                c["pc0"] = list(phases) + ["zz"] if isinstance(c["pc"], list) else {p_: 1e-3 * (j + 1) for j, p_ in enumerate(phases)}
+    if case.get("dur0"):     # a phase of duration exactly 0 is still a phase: it has rows, it just carries no weight in the average
+        spec["phases"] = {k: (0.0 if j == case["dur0"] - 1 else v) for j, (k, v) in enumerate(spec["phases"].items())}
+        phases = dict(spec["phases"])
     if case.get("rename"):
         # phase names one of which CONTAINS the other ("p" / "pq", "tx burst" / "tx"): selection and membership are by equality, never by substring
         ren = case["rename"]
@@ -197,6 +206,12 @@ def gen_cases(tier):
                     opts[0] = [None, [list(phases)[0]]]  # larger trees: the source is either unconfigured or on in the first phase only
                 for assign in itertools.product(*opts):
                     yield dict(f=f, pal=pal, srs=0.37, assign=list(assign), ph3=ph3)
+                    if not ph3 and n == 1:
+                        yield dict(f=f, pal=pal, srs=0.37, assign=list(assign), ph3=ph3, bounce="rename")
+                        yield dict(f=f, pal=pal, srs=0.37, assign=list(assign), ph3=ph3, bounce="clear")
+                        yield dict(f=f, pal=pal, srs=0.37, assign=list(assign), ph3=ph3, reconf=True)
+                        yield dict(f=f, pal=pal, srs=0.37, assign=list(assign), ph3=ph3, dur0=1)
+                        yield dict(f=f, pal=pal, srs=0.37, assign=list(assign), ph3=ph3, dur0=2)
                     if not ph3 and (n == 1 or (n == 2 and len(f) == 1)):
                         yield dict(f=f, pal=pal, srs=0.37, assign=list(assign), ph3=ph3, rename={"a": "p", "b": "pq"})
                         if n == 1:
